@@ -454,6 +454,26 @@ func runC20(r *core.Run, bin string, i int) {
 	}
 	v1 := write()
 	writeTwin(v1)
+	// a free-standing file (includes nothing, included by nothing) that the
+	// second commit renames or deletes
+	extra, extraOld, extraNew, extraText := "", "", "", ""
+	var extraWant []diag
+	switch rng.Intn(10) {
+	case 0:
+		extra, extraText = "rename a file without services (content unchanged)", "struct OnlyData {\n  1: optional i32 x\n}\n\nenum Kind {\n  A\n  B\n}\n"
+	case 1:
+		extra, extraText = "delete a file without services", "struct OnlyData {\n  1: optional i32 x\n}\n"
+	case 2:
+		extra, extraText = "delete a file with two services", "struct D {\n  1: optional i32 x\n}\n\nservice Gone {\n  void f()\n}\n\nservice GoneToo {\n}\n"
+		extraWant = []diag{{"extra_old.thrift", "service-removed", "Gone", ""}, {"extra_old.thrift", "service-removed", "GoneToo", ""}}
+	}
+	if extra != "" {
+		d0 := filepath.Dir(p.Files[0].Path)
+		extraOld, extraNew = d0+"/extra_old.thrift", d0+"/extra_new.thrift"
+		os.MkdirAll(filepath.Join(dir, d0), 0o755)
+		os.WriteFile(filepath.Join(dir, extraOld), []byte(extraText), 0o644)
+		v1[extraOld] = extraText
+	}
 	if err := gitCmd(dir, "init", "-q"); err != nil {
 		r.Inconclusive("%v", err)
 		return
@@ -470,6 +490,15 @@ func runC20(r *core.Run, bin string, i int) {
 	edits := applyEdits(p, rng, nEdits*2)
 	v2 := write()
 	writeTwin(v2)
+	if extra != "" {
+		if strings.HasPrefix(extra, "rename") {
+			gitCmd(dir, "mv", extraOld, extraNew)
+			v2[extraNew] = extraText
+		} else {
+			gitCmd(dir, "rm", "-q", extraOld)
+		}
+		r.Add("repositories_with_renamed_or_deleted_file", 1)
+	}
 	// files deleted from the model do not occur; make the commit even when nothing changed
 	gitCmd(dir, "add", "-A")
 	if err := gitCmd(dir, "commit", "-q", "--allow-empty", "-m", "v2"); err != nil {
@@ -490,6 +519,12 @@ func runC20(r *core.Run, bin string, i int) {
 				}
 				want = append(want, t.String())
 			}
+		}
+	}
+	if extra != "" {
+		descs = append(descs, extra)
+		for _, d := range extraWant {
+			want = append(want, d.String())
 		}
 	}
 	sort.Strings(want)
